@@ -20,6 +20,9 @@ Normal form:
   N6  a local assigned exactly once to a side-effect-free expression whose inputs are not modified before its
       uses is substituted into its uses (forward substitution); fresh containers only when used once
   N7  ``for k in d.keys()`` -> ``for k in d``;  ``set([])`` -> ``set()``
+  N10 ``if c: A  else: B`` with a single negative comparison ``c`` (``!=``, ``not in``, ``is not``)
+                                                              ->  ``if <positive c>: B  else: A``
+  N11 ``if c: ...; raise/return/continue/break  else: B``    ->  ``if c: ...; raise/...`` ; B   (else after a terminator)
 """
 import ast
 from collections import Counter
@@ -369,6 +372,9 @@ class _Simplify(ast.NodeTransformer):
             v = v.args[0]
         if isinstance(v, (ast.ListComp, ast.GeneratorExp)) and v is not n.value or isinstance(v, ast.ListComp):
             if len(v.generators) == 1 and not v.generators[0].ifs and isinstance(v.generators[0].target, ast.Name) \
+                    and not isinstance(v.generators[0].iter, (ast.Dict, ast.Set, ast.DictComp, ast.SetComp, ast.GeneratorExp)) \
+                    and (not isinstance(v.generators[0].iter, ast.Call) or dotted(v.generators[0].iter.func) == 'range') \
+                    and ast.unparse(v.generators[0].iter) not in _MAPPINGLIKE \
                     and is_pure(v.elt) and is_pure(v.generators[0].iter) and is_pure(n.slice):
                 x = v.generators[0].target.id
                 inner_bound = {m.id for m in ast.walk(v.elt) if isinstance(m, ast.Name) and isinstance(m.ctx, ast.Store)}
@@ -396,6 +402,28 @@ class _Simplify(ast.NodeTransformer):
 def _order_key(e):
     # constants and None last, then textual
     return (isinstance(e, ast.Constant), ast.unparse(e))
+
+
+# N9 turns iteration into indexing: sound only for sequences.  Every access path that the module uses like a mapping or a set
+# anywhere (receiver of one of these methods, or built by a dict / set display or constructor) is excluded.
+MAPPING_METHODS = {'keys', 'items', 'values', 'get', 'setdefault', 'update', 'popitem', 'add', 'discard', 'union', 'intersection',
+                   'difference', 'issubset', 'issuperset'}
+_MAPPINGLIKE = set()
+
+
+def mappinglike_paths(tree):
+    out = set()
+    for n in ast.walk(tree):
+        if isinstance(n, ast.Call) and isinstance(n.func, ast.Attribute) and n.func.attr in MAPPING_METHODS:
+            out.add(ast.unparse(n.func.value))
+        if isinstance(n, (ast.Assign, ast.AnnAssign)) and n.value is not None:
+            v = n.value
+            if isinstance(v, (ast.Dict, ast.DictComp, ast.Set, ast.SetComp)) or \
+                    (isinstance(v, ast.Call) and dotted(v.func) in ('dict', 'set', 'frozenset', 'collections.defaultdict', 'defaultdict',
+                                                                    'collections.OrderedDict', 'OrderedDict')):
+                for t in (n.targets if isinstance(n, ast.Assign) else [n.target]):
+                    out.add(ast.unparse(t))
+    return out
 
 
 def _drop_keys(it):
@@ -486,6 +514,12 @@ def _loop_forms(fn):
                 st.test = st.test.operand
                 st.body, st.orelse = st.orelse, st.body
                 changed = True
+            if isinstance(st, ast.If) and st.orelse and isinstance(st.test, ast.Compare) and len(st.test.ops) == 1 \
+                    and isinstance(st.test.ops[0], (ast.NotEq, ast.NotIn, ast.IsNot)) \
+                    and not (len(st.orelse) == 1 and isinstance(st.orelse[0], ast.If)):
+                st.test = _not(st.test)
+                st.body, st.orelse = st.orelse, st.body
+                changed = True
             if isinstance(st, (ast.For, ast.AsyncFor, ast.While)):
                 body = st.body
                 last = body[-1]
@@ -494,6 +528,19 @@ def _loop_forms(fn):
                     ast.copy_location(guard, last)
                     body[-1:] = [guard] + last.body
                     changed = True
+    # N11: else after a terminator (the block list is recomputed after every hoist: a hoisted ``else`` list is detached)
+    again = True
+    while again:
+        again = False
+        for block in all_blocks(fn):
+            for k, st in enumerate(block):
+                if isinstance(st, ast.If) and st.orelse and isinstance(st.body[-1], (ast.Raise, ast.Return, ast.Continue, ast.Break)):
+                    tail, st.orelse = list(st.orelse), []
+                    block[k + 1:k + 1] = tail
+                    changed = again = True
+                    break
+            if again:
+                break
     return changed
 
 
@@ -989,6 +1036,8 @@ def _private(name):
 def normalize_module(tree):
     """returns a normalised deep copy of a module tree."""
     new = clone(tree)
+    _MAPPINGLIKE.clear()
+    _MAPPINGLIKE.update(mappinglike_paths(tree))
     module_helpers = {st.name: st for st in new.body if isinstance(st, ast.FunctionDef) and _private(st.name) and _inlinable(st)}
     # helpers first (so that what gets inlined is itself in normal form)
     for st in new.body:
